@@ -132,7 +132,9 @@ def job(payload):
                     continue
                 if w and name in ("?(E) vs ([E] != [])",) and r["st"] == "error" and r0["st"] != "error":
                     continue      # E left nothing to capture: the equivalence is only claimed when it does
-                if w and name in ("if vs (?(C) A, !(C) B)",) and w == "diagnostics differ":
+                if w and name in ("if vs (?(C) A, !(C) B)", "?(E) vs ([E] != [])") and w == "diagnostics differ":
+                    # ?(E) / the condition stop at the first result, the rewritten form evaluates further
+                    # (or twice): only the results are claimed equal
                     continue
                 if w:
                     out["bad"].append(("%s:%s" % (name, w), dict(a=t0, b=t, opts=kw)))
